@@ -27,27 +27,66 @@ THEOREMS = [
     (M, "C18.entities_survive", "what can be read off an entry (key, value, all, positions) is not changed by any later operations; re-reading it later returns the same"),
     (M, "C18.parsed_entities_survive", "in particular for the entries a parse of a singleton parser has just returned"),
     (M, "C18.report_depends_on_history_when_keys_clash", "negation witness: without NoJunkLikeKeys the report differs between a fresh and a used interpreter (finding F8)"),
+    # round 4: the whole state machine (CLModel/History/Machine.lean)
+    (M, "C18.memo_coherent_reachable", "in every state the tools can reach every memo (mozpath.re_cache, Matcher._cached_re, ProjectConfig._all_locales/_cache with the regexes of its with_env matchers, DTDChecker.__known_entities) holds what a fresh computation returns"),
+    (M, "C18.out_independent_all", "out_independent for ALL modelled operations: parse, compare, lint, merge (l10n-merge), serialize, merge_channels, getParser/hasParser, mozpath.match, Matcher new/with_env/match/sub, ProjectConfig new/set_locales/add_rules/add_paths/filter/all_locales, DTDChecker known_entities/text handler — in every reachable state the output is the cache-free, counter-free reference semantics of the arguments and of the objects named (junk ids of parse listings shifted)"),
+    (M, "C18.out_same_in_any_two_states", "two reachable states in which the same objects are alive return the same result for every closed operation, whatever their counters, contexts and caches hold"),
+    (M, "C18.run_independent_all", "whole histories of the extended machine: results do not depend on the state the history is started in"),
+    (M, "C18.view_independent_of_caches", "what the live objects are (pattern/env of a Matcher, locales/paths/rules of a ProjectConfig, flags/reference of a DTDChecker) evolves independently of what they have cached; queries never change it"),
+    (M, "C18.filter_ignores_caches", "config.filter(file, entity) is the verdict of the cache-free model FiltM.filterS whatever was asked before (other files, other locales, all_locales, set_locales)"),
+    (M, "C18.match_ignores_cached_re", "matcher.match(path) is PM.Matcher.match of its pattern and environment with or without a compiled regex from an earlier call; with_env starts without one"),
+    (M, "C18.mozmatch_ignores_re_cache", "mozpath.match(path, pattern) is PM.mozMatch whatever the module-level re_cache holds"),
+    (M, "C18.getparser_stateless", "getParser/hasParser read no mutable state: look-alike names and unknown extensions are answered the same before and after real files were parsed; the answer depends on the path and the installed entry points only"),
+    (M, "C18.texthandler_reset_before_use", "what processAndroidContent is called with is the character data of THIS value (android checks) or nothing, whatever the class-level DTDChecker.texthandler held before"),
+    (M, "C18.inc_flag_fresh_per_read", "after reading any .inc text the filter flag of the DefinesParser singleton's Context is the one a walk from a fresh Context ends with; the flag before does not matter"),
+    (M, "C18.read_replaces_context", "every readUnicode/readFile/readContents REPLACES the per-parse Context: whatever the shared parser held before (any text, a filled line cache, the .inc filter switched on), afterwards it holds a new Context with the given contents, no line cache, filter_empty_lines False; counter and older Contexts untouched"),
+    (M, "C18.parse_is_read_then_walk", "parse = read followed by a walk of the new Context (same listing, counter, contexts, filter flag): a walk right after a read never sees anything of the text read before, even when it is the same text"),
+    (M, "C18.parse_twice_same_listing", "reading the same text twice in a row through the same parser gives the listing of the first parse again (fresh junk ids), every format and text, also an .inc text that ends with the filter switched on"),
+    (M, "C18.rewalk_same_listing", "walking the Context a parser holds once more returns the same listing with fresh junk ids, for every format but .inc"),
+    (M, "C18.rewalk_inc_depends_on_flag", "negation witness: a second walk of the same .inc Context starts with the flag the first one left (Junk becomes Whitespace); no tool walks a Context twice"),
+    (M, "C18.filter_stale_after_add_rules", "negation witness for Op.safe: a rule added after a filter query of the same locale is not seen (Python never resets _cache): error instead of ignore"),
+    (M, "C18.lint_depends_on_history_when_keys_clash", "negation witness: without NoJunkLike1 the linter reports a duplicate in a fresh interpreter only (finding F8, lint face)"),
+    (M, "C18.multi_file_union_observer_order", "the Observer's aggregation (C10 model: details tree + summaries) of a multi-file run is the same for every order of the file pairs: same details under every path, same number in every summary cell, every quiet level and filter"),
+    (M, "C18.multi_file_union_observer", "the aggregated report is the union of the single-file reports: under a file's path the details of the run over that pair alone, every summary number the sum over the single-file runs"),
+    (M, "C18.warm_reachable", "non-vacuity: a reachable state with re_cache, a compiled matcher regex, both ProjectConfig memos filled and a moved junk counter"),
 ]
 PARTIAL = [
-    "out_independent covers the operations of the model (parse for properties/dtd/ini/inc/po, compare for the formats with the base "
-    "Checker); lint, merge, serialize, Fluent, Android, the DTD/properties checkers and the paths caches are covered by the "
-    "history oracle only (fresh interpreter vs. used interpreter)",
-    "multi_file_union is proved for the model's compare operation; the Observer's aggregation (details tree, summary sums), "
-    "compareProjects and the filter cache are checked by the oracle only (all 24 orders of 4-file projects, two-locale projects)",
+    "out_independent_all covers every operation of the extended machine; compare / lint / merge are modelled with the base Checker "
+    "(ini, inc; parse for properties/dtd/ini/inc/po); serialize and merge_channels re-use the C16/C15 models, in which a Junk is "
+    "identified by its position (the F8 collision of a junk key with a real key is outside those two models); Fluent, Android, "
+    "the PropertiesChecker and the XML part of the DTDChecker (expat) are covered by the history oracle only",
+    "ProjectConfig objects are modelled without children and excludes (the recursion of _filter is C14's); add_rules/add_paths "
+    "after a filter query are modelled exactly (stale _cache) and excluded from the invariant by Op.safe, with a negation witness; "
+    "run_independent_all is stated for histories without these two mutators",
+    "rewalk (walking a Context twice) and reobs are not closed operations: their argument is a piece of the state; they have "
+    "their own theorems (rewalk_same_listing, rewalk_inc_depends_on_flag, entities_survive)",
+    "multi_file_union is proved for the model's compare operation; the Observer's aggregation (details tree, summary sums) is "
+    "checked by the oracle against the C10 model (all orders of small projects), compareProjects and the filter cache by the "
+    "oracle (two-locale projects = union of the single-file single-locale projects)",
 ]
-LEVEL_TEXT = ("Lean 4 theorems over an explicit model of the process-wide state (Junk.junkid, parser singletons, Context objects): "
+LEVEL_TEXT = ("Lean 4 theorems over an explicit model of ALL process-wide and instance-wide mutable state (Junk.junkid, parser "
+              "singletons, Context objects with line cache and inc filter flag, getParser entry points, mozpath.re_cache, "
+              "Matcher._cached_re, ProjectConfig._all_locales/_cache, DTDChecker.__known_entities and the class-level text "
+              "handler): every memo of a reachable state is coherent and every modelled operation returns its cache-free "
+              "reference semantics; "
               "reports are independent of the reachable state when no real key has the shape of a junk key, junk keys are pairwise "
               "distinct, the counter only shows in junk keys, entries survive later parses; the model is tied to the Python by "
               "running whole histories through both; an independent oracle compares every operation of 2-6 step histories over all "
               "seven formats with the same operation in a fresh interpreter, all orders of 4-file projects with the union of the "
               "single-file reports, and held entity objects before/after the parser is reused")
-LEVEL_NOTE = ("trusted: Lean kernel; hand-written state model (CLModel/History/State.lean) validated by history correspondence; "
-              "state outside the model (checker classes, sax handlers, regex caches, ProjectConfig cache, fluent/minidom parsers) is "
-              "covered by execution only; hypothesis NoClash is necessary (negation witness + the real code shows finding F8 there)")
+LEVEL_NOTE = ("trusted: Lean kernel; hand-written state models (CLModel/History/State.lean, Machine.lean) validated by history "
+              "correspondence of results AND of a digest of every real state component after every operation; state outside "
+              "the model (PropertiesChecker/FluentChecker/AndroidChecker instances, expat, fluent/minidom parsers, the re module's "
+              "own cache) is covered by execution only; hypotheses NoJunkLikeKeys / Op.safe are necessary (negation witnesses; "
+              "the real code shows finding F8 resp. the stale filter cache there)")
 TECHNIQUE = "Lean 4 proof over an explicit global-state model + history-vs-fresh-interpreter differential oracle"
 TRUSTED = [
     "hand-written model CLModel/History/State.lean of Junk.junkid, parser singletons, Context objects, findDuplicates and "
     "ContentComparer.compare with the base Checker (tied by the `c18.run` history correspondence)",
+    "hand-written model CLModel/History/Machine.lean of the remaining state (inc flag, getParser with entry points, re_cache, "
+    "Matcher/ProjectConfig/DTDChecker objects with their memos) and of lint / merge with the base Checker (tied by the "
+    "`c18.mrun` correspondence: result and state digest after every operation)",
+    "the pure models it wraps: PM.* (C11/C12), FiltM.* (C14), Ser.* (C16), Merge.* (C04, C15), Dtd.entitiesForValue (C07)",
     "P.walk of CLModel/Parser (C01) for the entries of one parse",
 ]
 ASSUMPTIONS = [
@@ -66,7 +105,8 @@ KEYS = ["a", "b", "c", "key_d", "accesskey", "e.f"]
 VALS = {
     None: ["1", "two words", "x \ufffd y", "12", "<b>bold</b> text", "", "three more words"],
     "properties": ["%S and %1$S", "#1 file;#1 files", "line\\\n  cont", "\\u0041bc"],
-    "dtd": ["a &amp; b", "&foo; bar", "width: 10em", "it's", "unclosed <b>", "&bar;&foo;", "say \\u0022hi"],
+    "dtd": ["a &amp; b", "&foo; bar", "width: 10em", "it's", "unclosed <b>", "&bar;&foo;", "say \\u0022hi",
+            "10em", "12", "&bar;", "<b>open\n", "100%", "two\nlines <", "width: 1ch; height: 2em", "'quoted \\u00zz'"],
     "ftl": ["{ $x } items", "{ -term }", "{ a }"],
     "android": ["%1$s done", "it\\'s", "it's", "%d of %d"],
     "po": ["quote \\\" q", "tab\\t"],
@@ -189,7 +229,8 @@ def gen_pair(rng, fmt):
 
 def gen_op(rng, kind=None, fmt=None):
     kind = kind or rng.choice(["parse", "parse", "compare", "compare", "compare", "lint", "merge", "serialize",
-                               "mozmatch", "project", "files", "add", "hasparser"])
+                               "mozmatch", "project", "files", "add", "hasparser", "chan", "getparser", "matcherq", "cfgq",
+                               "mozfn", "rewalk"])
     fmt = fmt or rng.choice(FORMATS)
 
     def rename(op):
@@ -241,12 +282,75 @@ def gen_op(rng, kind=None, fmt=None):
         return {"op": "mozmatch", "pattern": rng.choice(pats), "paths": paths}
     if kind == "project":
         return gen_project(rng)
+    if kind == "chan":
+        return {"op": "chan", "fmt": fmt, "texts": [rng.choice(gen_pair(rng, fmt)) for _ in range(rng.randrange(1, 4))]}
+    if kind == "getparser":
+        names = [FNAME_[fmt]] + NEAR[fmt] + ALIAS[fmt] + ["unknown.xyz", "q.c18x", "", "README", "a.dtd.properties"]
+        return {"op": "getparser", "path": rng.choice(names)}
+    if kind == "rewalk":
+        # walks whatever Context the shared parser holds: a disturbance for the others, not compared itself
+        return {"op": "rewalk", "fmt": fmt, "nocmp": True}
+    if kind == "matcherq":
+        return gen_matcherq(rng)
+    if kind == "cfgq":
+        return gen_cfgq(rng)
+    if kind == "mozfn":
+        return {"op": "mozfn", "paths": rng.sample(["foo/bar/baz", "/a/b/../c", "a//b/", "x.y.ftl", "", "/", "foo\\bar", "a/b/c.d/e"], 4),
+                "bases": rng.sample(["foo", "foo/bar", "", "/a", "a/b"], 3)}
     if kind == "files":
         files = gen_files(rng, rng.randrange(1, 4))
         order = list(range(len(files)))
         rng.shuffle(order)
         return {"op": "files", "files": files, "order": order}
     raise ValueError(kind)
+
+
+def gen_matcherq(rng):
+    """one Matcher object used several times (match, sub, prefix, with_env): every answer must be the one a freshly
+    built Matcher gives"""
+    steps = []
+    for _ in range(rng.randrange(2, 7)):
+        r = rng.random()
+        if r < 0.55:
+            steps.append(["match", rng.choice(M_PATHS)])
+        elif r < 0.7:
+            steps.append(["with", rng.choice(M_WITH)])
+        elif r < 0.85:
+            steps.append(["sub", rng.choice(M_PATTERNS), rng.choice(M_ENVS), rng.choice(M_PATHS)])
+        else:
+            steps.append(["prefix"])
+    return {"op": "matcherq", "pattern": rng.choice(M_PATTERNS), "env": rng.choice(M_ENVS),
+            "root": rng.choice([None, None, "/r"]), "steps": steps}
+
+
+def gen_cfgq(rng):
+    """one ProjectConfig (with an included and an excluded configuration, or a legacy filter.py) asked several times,
+    set_locales / all_locales in between: every answer must be the one a freshly built configuration gives"""
+    cfg = gen_cfg(rng, 1)
+    spec = {k: cfg[k] for k in ("locales", "env", "root", "paths", "rules")}
+    if rng.random() < 0.4:
+        spec["children"] = [{k: gen_cfg(rng, 1)[k] for k in ("locales", "env", "root", "paths", "rules")}]
+    if rng.random() < 0.25:
+        spec["excludes"] = [{"locales": ["de", "fr"], "env": [], "root": None, "paths": [["/l/{locale}/b/**", None]], "rules": []}]
+    if rng.random() < 0.15:
+        spec["filter_py"] = rng.choice(["ignore-b", "raise", "report"])
+        spec["rules"] = []
+    steps = []
+    if rng.random() < 0.4 and not spec.get("filter_py"):
+        # the configuration still grows after `all_locales` was asked (never after a filter query: Python keeps the
+        # FilterCache of a locale across add_paths / add_rules, see C18.filter_stale_after_add_rules)
+        steps += [["all_locales"], ["add_paths", [["/l/{locale}/**", ["he"]]]], ["all_locales"]]
+    for _ in range(rng.randrange(3, 9)):
+        r = rng.random()
+        if r < 0.7:
+            steps.append(["filter"] + list(gen_query(rng)))
+        elif r < 0.8:
+            steps.append(["all_locales"])
+        elif r < 0.9:
+            steps.append(["set_locales", rng.choice([None, ["de"], ["fr"], ["de", "fr", "he"]]), rng.random() < 0.5])
+        else:
+            steps.append(["same"])
+    return {"op": "cfgq", "spec": spec, "steps": steps}
 
 
 def gen_files(rng, n):
@@ -280,7 +384,12 @@ def gen_project(rng, files=None, locales=("de", "fr")):
     if rng.random() < 0.7:
         rel = rng.choice(files)[0]
         filters.append([rel, rng.choice(KEYS), rng.choice(["ignore", "warning"])])
-    return {"op": "project", "locales": list(locales), "files": proj, "filters": filters}
+    op = {"op": "project", "locales": list(locales), "files": proj, "filters": filters}
+    tops = sorted({rel.split("/")[0] for rel in proj if "/" in rel})
+    if tops and rng.random() < 0.6:
+        # l10n.ini style: some top-level directories are legacy modules, the rest is covered by a plain entry
+        op["modules"] = rng.sample(tops, rng.randrange(1, len(tops) + 1))
+    return op
 
 
 # ---------------------------------------------------------------- the deliberately constructed collision
@@ -359,7 +468,7 @@ def fresh_calls(base, op_lists, timeout=30.0, jobs=14):
         try:
             r = w.call([["impl.history", "run_ops", [base, ops]]], timeout + 0.5 * len(ops))
         finally:
-            w.kill()
+            w.close()       # end of input: the worker writes its coverage dump, then it is reaped
         if r is None:
             return None
         r = r[0]
@@ -392,6 +501,526 @@ def model_ok(op):
     if op["op"] == "parse":
         return op["fmt"] in MODEL_PARSE and not op.get("keyed")
     return op["op"] == "compare" and op["fmt"] in MODEL_COMPARE and not op.get("extra")
+
+
+# ---------------------------------------------------------------- round 4: histories of the whole state machine (HistM)
+M_FMT_TEXT = ["ini", "inc"]                       # compare / lint / merge of the model: base Checker
+M_FMT_SER = ["ini", "properties", "inc", "dtd"]
+M_MOZ_PATS = ["foo/*", "foo/**", "**/bar", "foo/**/baz", "*.dtd", "browser/**", "foo/bar", "", "f*o/*/x"]
+M_MOZ_PATHS = ["foo/bar", "foo", "foo/x/baz", "a.dtd", "browser/a/b.ftl", "fxo/y/x", "foo/baz", "foo/x/y/baz"]
+M_PATTERNS = ["{l}/**", "{l10n_base}/{locale}/**", "/l/{locale}/*.ini", "/l/{locale}/b/**/c.ftl", "/l/{locale}/a.ini",
+              "x/{android_locale}/s.xml", "/l/*/{locale}", "{l10n_base}/{locale}/b/*", "/l/**", "/l/{locale}/"]
+M_ENVS = [[], [["l", "x/{locale}"]], [["l10n_base", "/l"]], [["locale", "de"]], [["l10n_base", "/l"], ["l", "{l10n_base}/{locale}"]]]
+M_WITH = [[["locale", "de"]], [["locale", "fr"]], [["locale", "he"]], [["l10n_base", "/m"]], []]
+M_PATHS = ["/l/de/a.ini", "/l/fr/a.ini", "/l/de/b/x/c.ftl", "/l/de/b/c.ftl", "x/de/q", "x/iw/s.xml", "x/b+sr+Latn/s.xml",
+           "/l/q/de", "/l/de/b/z", "/m/de/a.ini", "/l/de/", "nope"]
+M_LOCALES = ["de", "fr", "he", "xx"]
+M_KEYS = ["a", "key_d", "b"]
+M_REFVALS = ["&foo; x", "&bar;&amp;", "plain", "&brandShortName; and &foo;", "width: 10em"]
+M_TEXTS = ["plain", "it\\'s", "say &amp; go", "x &lt; y", "two\nlines", "\\u0041bc", ""]
+M_QUERIES = [("/l/de/a.ini", "de"), ("/l/fr/a.ini", "fr"), ("/l/de/b/x", "de"), ("/l/de/b/x/c.ftl", "de"), ("/m/de/a.ini", "de"),
+             ("/m/fr/a.ini", "fr"), ("/l/fr/b/z", "fr"), ("/l/he/a.ini", "he"), ("/proj/src/l/de/a.ini", "de")]
+PLUGIN_RE = r"c18.*\.c18x$"
+PLUGIN_NAMES = ["c18a.c18x", "other.c18x", "c18b.c18x", "c18a.c18x.bak", "a.properties", "dir/c18/x.c18x"]
+
+
+def gen_query(rng):
+    """a (fullpath, locale, key) the generated configurations have something to say about"""
+    pth, loc = rng.choice(M_QUERIES)
+    if rng.random() < 0.12:
+        loc = rng.choice(M_LOCALES)
+    return pth, loc, rng.choice([None, None] + M_KEYS)
+
+
+def xml_text(v):
+    return v.replace("&lt;", "<").replace("&gt;", ">").replace("&amp;", "&")
+
+
+def m_root(root, base=None):
+    """what `Matcher` stores: mozpath.abspath(root) + "/" """
+    if root is None:
+        return None
+    if base is not None:
+        root = os.path.join(base, root)
+    return os.path.abspath(root).replace(os.sep, "/") + "/"
+
+
+def compiled_rules(rules):
+    """_compile_rule: one rule per (path, key), path-major; key literal | re:regex | absent"""
+    out = []
+    for r in rules:
+        paths = [r["path"]] if isinstance(r["path"], str) else list(r["path"])
+        for pth in paths:
+            if r.get("key") is None:
+                out.append((pth, None, r["action"]))
+            else:
+                keys = [r["key"]] if isinstance(r["key"], str) else list(r["key"])
+                for k in keys:
+                    out.append((pth, k, r["action"]))
+    return out
+
+
+def m_rules_toks(rules):
+    import translate
+    toks = []
+    comp = compiled_rules(rules)
+    toks.append(str(len(comp)))
+    for pth, k, act in comp:
+        toks.append(C.enc(pth))
+        if k is None:
+            toks.append("-")
+        elif k.startswith("re:"):
+            toks += ["X", translate.wire_pattern(k[3:])[0]]
+        else:
+            toks += ["L", C.enc(k)]
+        toks.append(act[0])
+    return toks
+
+
+def m_locs(locs):
+    return ["N"] if locs is None else [str(len(locs))] + [C.enc(l) for l in locs]
+
+
+def m_env(env):
+    env = env or []
+    return [str(len(env))] + [C.enc(x) for kv in env for x in kv]
+
+
+def m_paths_toks(paths):
+    toks = [str(len(paths))]
+    for pat, locs in paths:
+        toks += [C.enc(pat)] + m_locs(locs)
+    return toks
+
+
+def m_tokens(o):
+    k = o["op"]
+    if k == "parse":
+        return ["parse", o["fmt"], C.enc(o["text"])]
+    if k == "compare":
+        return ["compare", o["fmt"], C.enc(o["ref"]), C.enc(o["l10n"])]
+    if k == "rewalk":
+        return ["rewalk", o["fmt"]]
+    if k == "read":
+        return ["read", o["fmt"], C.enc(o["text"])]
+    if k == "lint":
+        return ["lint", o["fmt"], "-" if o.get("ref") is None else C.enc(o["ref"]), C.enc(o["cur"])]
+    if k == "merge":
+        return ["merge", o["fmt"], C.enc(o["ref"]), C.enc(o["l10n"])]
+    if k == "serialize":
+        toks = ["serialize", o["fmt"], C.enc(o["ref"]), C.enc(o["old"]), str(len(o["new"]))]
+        for key, v in o["new"]:
+            toks += [C.enc(key), "-" if v is None else C.enc(v)]
+        return toks
+    if k == "chan":
+        return ["chan", o["fmt"], str(len(o["texts"]))] + [C.enc(t) for t in o["texts"]]
+    if k == "getparser":
+        return ["getparser", C.enc(o["path"])]
+    if k == "moz":
+        return ["moz", C.enc(o["path"]), C.enc(o["pattern"])]
+    if k == "mnew":
+        r = m_root(o.get("root"))
+        return ["mnew", str(o["id"]), C.enc(o["pattern"])] + m_env(o.get("env")) + ["-" if r is None else C.enc(r)]
+    if k == "mwith":
+        return ["mwith", str(o["id"]), str(o["new"])] + m_env(o.get("env"))
+    if k == "mmatch":
+        return ["mmatch", str(o["id"]), C.enc(o["path"])]
+    if k == "msub":
+        return ["msub", str(o["id"]), str(o["other"]), C.enc(o["path"])]
+    if k == "cnew":
+        r = m_root(o.get("root"), "/proj")
+        return (["cnew", str(o["id"])] + m_locs(o.get("locales")) + m_env(o.get("env")) + ["-" if r is None else C.enc(r)]
+                + m_paths_toks(o.get("paths") or []) + m_rules_toks(o.get("rules") or []))
+    if k == "csetloc":
+        return ["csetloc", str(o["id"])] + m_locs(o.get("locales"))
+    if k == "caddrules":
+        return ["caddrules", str(o["id"])] + m_rules_toks(o["rules"])
+    if k == "caddpaths":
+        return ["caddpaths", str(o["id"])] + m_paths_toks(o["paths"])
+    if k == "cfilter":
+        return ["cfilter", str(o["id"]), C.enc(o["fullpath"]), C.enc(o["locale"]), "-" if o.get("key") is None else C.enc(o["key"])]
+    if k == "calllocales":
+        return ["calllocales", str(o["id"])]
+    if k == "dnew":
+        return ["dnew", str(o["id"]), "1" if o.get("android") else "0"] + m_locs(o.get("reference"))
+    if k == "dknown":
+        return ["dknown", str(o["id"]), C.enc(o["value"])]
+    if k == "dtext":
+        return ["dtext", str(o["id"]), C.enc(o["ref"]), "1", C.enc(xml_text(o["text"]))]
+    raise ValueError(k)
+
+
+def m_line(ops):
+    """c18.mrun line of a machine history (first op = env)"""
+    import translate
+    ep = ops[0].get("ep", "none")
+    if ep == "nopkg":
+        toks = ["U"]
+    elif ep == "plugin":
+        toks = ["P", "1", translate.wire_pattern(PLUGIN_RE)[0], C.enc("PluginParser")]
+    else:
+        toks = ["P", "0"]
+    for o in ops[1:]:
+        toks += m_tokens(o)
+    return "c18.mrun " + " ".join(toks)
+
+
+# texts that leave state behind on the Context they were read into (inc: filter switched on at the end, blank lines
+# before it; BOM; files ending in junk or in a comment without newline)
+STATEFUL = {
+    "inc": ["#define a 1\n\n\n#define b 2\n#filter emptyLines\n", "#define a\n\n#filter emptyLines\n",
+            "# c\n\n\n#define a 1\n#filter emptyLines\n\n\n#define b 2\n", "#filter emptyLines\n\n\n#define a 1\n#unfilter emptyLines\n\n\n"],
+    "dtd": ['\ufeff<!ENTITY a "x">\n<!ENTITY b "y">\n', '<!ENTITY a "x">\n<!-- trailing', '<!ENTITY a "x">\njunk <'],
+    "properties": ["\ufeffa=1\nb=2\n", "a=1\n# trailing comment", "a=1\nzzz", "a=line\\\n"],
+    "ini": ["[Strings]\na=1\n; trailing", "a=1\nzzz", "\ufeff[S]\na=1\n"],
+    "po": ['msgid "a"\nmsgstr "b"\n\n# trailing', 'msgid "a"\nmsgstr "b"\n\njunk'],
+    "ftl": ["a = 1\n# trailing", "a = 1\njunk {", "\ufeffa = 1\n"],
+    "android": ['<?xml version="1.0" encoding="utf-8"?>\n<resources>\n  <string name="a">x</string>\n</resources>\n<!-- after -->'],
+}
+
+
+def repeat_histories(ctx, rng):
+    """the SAME (format, text) twice in a row through the same shared parser: parse-parse, parse-compare, compare(A, A),
+    compare(A, B) after parse B then parse A, lint after parse, read through a file — every format, texts that leave
+    state on their Context included"""
+    hs = []
+    for fmt in FORMATS:
+        texts = list(STATEFUL.get(fmt, []))
+        for _ in range(2 if ctx.tier == "quick" else 6):
+            texts.append(rng.choice(gen_pair(rng, fmt)))
+        if ctx.tier == "quick":
+            texts = rng.sample(texts, min(len(texts), 3))
+        for a in texts:
+            b = rng.choice(gen_pair(rng, fmt))
+            pa = {"op": "parse", "fmt": fmt, "text": a}
+            pb = {"op": "parse", "fmt": fmt, "text": b}
+            cab = {"op": "compare", "fmt": fmt, "ref": a, "l10n": b}
+            caa = {"op": "compare", "fmt": fmt, "ref": a, "l10n": a}
+            cba = {"op": "compare", "fmt": fmt, "ref": b, "l10n": a}
+            la = {"op": "lint", "fmt": fmt, "cur": a, "ref": None}
+            lra = {"op": "lint", "fmt": fmt, "cur": a, "ref": a}
+            fa = {"op": "parse", "fmt": fmt, "text": a, "via": "file"}
+            ma = {"op": "merge", "fmt": fmt, "ref": b, "l10n": a}
+            shapes = [[pa, pa], [pa, cab], [pb, pa, cab], [pa, caa], [pa, la], [pa, lra], [pa, fa, fa], [pa, ma],
+                      [pa, {"op": "rewalk", "fmt": fmt, "nocmp": True}, pa]]
+            if ctx.tier != "quick":
+                shapes += [[caa, caa], [la, la], [pa, cba], [cba, pa]]
+            for h in shapes:
+                hs.append(("repeat", h))
+    return hs
+
+
+def gen_mtext(rng, fmt):
+    ref, l10n = gen_pair(rng, fmt)
+    return ref, l10n
+
+
+def gen_cfg(rng, cid):
+    paths = []
+    for _ in range(rng.randrange(1, 3)):
+        paths.append([rng.choice(["{l10n_base}/{locale}/**", "/l/{locale}/**", "/l/{locale}/**", "/l/{locale}/b/**",
+                                  "/m/{locale}/*.ini", "l/{locale}/**"]),
+                      rng.choice([None, None, None, ["de"], ["de", "fr"]])])
+    rules = [gen_rule(rng) for _ in range(rng.randrange(0, 4))]
+    return {"op": "cnew", "id": cid, "locales": rng.choice([None, ["de"], ["de", "fr"], ["de", "fr"], ["fr", "de", "fr"]]),
+            "env": rng.choice([[["l10n_base", "/l"]], [["l10n_base", "/m"]], []]), "root": rng.choice([None, None, "src"]),
+            "paths": paths, "rules": rules}
+
+
+def gen_rule(rng):
+    pth = rng.choice(["/l/{locale}/a.ini", "/l/{locale}/**", "{l10n_base}/{locale}/b/*", "/l/de/*.ini", "/l/{locale}/b/**/c.ftl"])
+    if rng.random() < 0.2:
+        pth = [pth, rng.choice(["/m/{locale}/a.ini", "/l/fr/**"])]
+    r = rng.random()
+    key = None if r < 0.4 else rng.choice(M_KEYS) if r < 0.7 else "re:" + rng.choice(["key_.*", "[ab]$", "a"]) if r < 0.85 \
+        else [rng.choice(M_KEYS), "re:k.*"]
+    return {"path": pth, "key": key, "action": rng.choice(["ignore", "warning", "error"])}
+
+
+M_KINDS = ["parse", "compare", "lint", "merge", "rewalk", "read", "serialize", "chan", "getparser", "moz", "matcher", "config", "dtd"]
+M_FOCUS = {"text": ["parse", "compare", "lint", "merge", "rewalk", "rewalk", "read", "again", "again", "serialize", "chan"], "matcher": ["matcher"],
+           "config": ["config"], "dtd": ["dtd"], "lookup": ["getparser", "moz", "moz"], "mixed": M_KINDS}
+
+
+def gen_mop(rng, st):
+    """one operation of the state machine; `st` = ids of the live objects, focus of the history"""
+    k = rng.choice(M_FOCUS[st["focus"]]) if rng.random() < 0.65 else rng.choice(M_KINDS)
+    if k in ("matcher", "config", "dtd") and not st[k[0]] and st["focus"] not in (k, "mixed"):
+        k = rng.choice(["moz", "getparser", "parse", "rewalk"])       # objects are created in the histories about them
+    if k == "again":
+        # the SAME text once more through the same shared parser, as parse / read / reference / localization / linted file
+        last = st.get("last")
+        if last is None:
+            k = "parse"
+        else:
+            fmt, t = last
+            other = rng.choice(gen_mtext(rng, fmt))
+            r = rng.random()
+            if r < 0.3 or fmt not in M_FMT_TEXT:
+                return {"op": rng.choice(["parse", "parse", "read"]), "fmt": fmt, "text": t}
+            if r < 0.5:
+                return {"op": rng.choice(["compare", "merge"]), "fmt": fmt, "ref": t, "l10n": rng.choice([t, other])}
+            if r < 0.7:
+                return {"op": "compare", "fmt": fmt, "ref": other, "l10n": t}
+            return {"op": "lint", "fmt": fmt, "cur": t, "ref": rng.choice([None, t, other])}
+    if k in ("parse", "read"):
+        fmt = rng.choice(MODEL_PARSE + ["inc", "inc"])
+        t = rng.choice(list(gen_mtext(rng, fmt)) + STATEFUL.get(fmt, []))
+        st["last"] = (fmt, t)
+        return {"op": k, "fmt": fmt, "text": t}
+    if k in ("compare", "merge"):
+        fmt = rng.choice(M_FMT_TEXT)
+        ref, l10n = gen_mtext(rng, fmt)
+        return {"op": k, "fmt": fmt, "ref": ref, "l10n": l10n}
+    if k == "lint":
+        fmt = rng.choice(M_FMT_TEXT)
+        ref, l10n = gen_mtext(rng, fmt)
+        return {"op": "lint", "fmt": fmt, "cur": l10n, "ref": ref if rng.random() < 0.6 else None}
+    if k == "rewalk":
+        return {"op": "rewalk", "fmt": rng.choice(MODEL_PARSE + ["inc", "inc"])}
+    if k == "serialize":
+        fmt = rng.choice(M_FMT_SER)
+        ref, l10n = gen_mtext(rng, fmt)
+        new = {}
+        for key in rng.sample(KEYS, rng.randrange(0, 3)):
+            new[key] = None if rng.random() < 0.3 else val_of(rng, fmt)
+        return {"op": "serialize", "fmt": fmt, "ref": ref, "old": l10n, "new": sorted(new.items())}
+    if k == "chan":
+        fmt = rng.choice(M_FMT_SER)
+        return {"op": "chan", "fmt": fmt, "texts": [rng.choice(gen_mtext(rng, fmt)) for _ in range(rng.randrange(1, 4))]}
+    if k == "getparser":
+        fmt = rng.choice(FORMATS)
+        return {"op": "getparser", "path": rng.choice([FNAME_[fmt]] + NEAR[fmt] + ALIAS[fmt] + ["q.c18x", "a.c18x.bak", "unknown.xyz", ""] + PLUGIN_NAMES)}
+    if k == "moz":
+        return {"op": "moz", "path": rng.choice(M_MOZ_PATHS), "pattern": rng.choice(M_MOZ_PATS)}
+    if k == "matcher":
+        ids = st["m"]
+        r = rng.random()
+        if not ids or r < 0.2:
+            i = rng.randrange(1, 4)
+            ids.add(i)
+            return {"op": "mnew", "id": i, "pattern": rng.choice(M_PATTERNS), "env": rng.choice(M_ENVS),
+                    "root": rng.choice([None, None, None, "/r", "/r.x/y"])}
+        i = rng.choice(sorted(ids) + ([9] if rng.random() < 0.05 else []))
+        if r < 0.4:
+            j = rng.randrange(1, 5)
+            if i in ids:
+                ids.add(j)
+            return {"op": "mwith", "id": i, "new": j, "env": rng.choice(M_WITH)}
+        if r < 0.8:
+            return {"op": "mmatch", "id": i, "path": rng.choice(M_PATHS)}
+        return {"op": "msub", "id": i, "other": rng.choice(sorted(ids)), "path": rng.choice(M_PATHS)}
+    if k == "config":
+        ids = st["c"]
+        r = rng.random()
+        if not ids or r < 0.15:
+            i = rng.randrange(1, 3)
+            ids.add(i)
+            return gen_cfg(rng, i)
+        i = rng.choice(sorted(ids) + ([9] if rng.random() < 0.05 else []))
+        if r < 0.25:
+            return {"op": "csetloc", "id": i, "locales": rng.choice([None, ["de"], ["fr"], ["de", "fr", "he"]])}
+        if r < 0.33:
+            return {"op": "calllocales", "id": i}
+        if r < 0.38 and st.get("mutate"):
+            return {"op": "caddrules", "id": i, "rules": [gen_rule(rng)]}
+        if r < 0.42 and st.get("mutate"):
+            return {"op": "caddpaths", "id": i, "paths": [["/l/{locale}/**", rng.choice([None, ["he"]])]]}
+        pth, loc, key = gen_query(rng)
+        return {"op": "cfilter", "id": i, "fullpath": pth, "locale": loc, "key": key}
+    if k == "dtd":
+        ids = st["d"]
+        r = rng.random()
+        if not ids or r < 0.25:
+            i = rng.randrange(1, 3)
+            ids.add(i)
+            return {"op": "dnew", "id": i, "android": rng.random() < 0.5,
+                    "reference": rng.choice([None, [], rng.sample(M_REFVALS, 2), M_REFVALS[:1]])}
+        i = rng.choice(sorted(ids))
+        if r < 0.6:
+            return {"op": "dknown", "id": i, "value": rng.choice(M_REFVALS)}
+        return {"op": "dtext", "id": i, "ref": rng.choice(M_REFVALS), "text": rng.choice(M_TEXTS)}
+    raise ValueError(k)
+
+
+def gen_mhistory(rng, n, mutate=False):
+    st = {"m": set(), "c": set(), "d": set(), "mutate": mutate, "focus": rng.choice(sorted(M_FOCUS))}
+    ops = [{"op": "env", "ep": rng.choice(["none", "none", "plugin", "nopkg"])}]
+    for _ in range(n):
+        ops.append(gen_mop(rng, st))
+    return ops
+
+
+def machine_correspondence(ctx, out, base, rng):
+    """histories of the whole state machine through the real code (one fresh interpreter each) and through
+    HistM.step (`c18.mrun`): results AND the digest of every state component after every operation"""
+    hs = [gen_mhistory(rng, rng.randrange(4, 13), mutate=rng.random() < 0.3) for _ in range(ctx.n(110, 900))]
+    # directed: cache hits after with_env / set_locales, the inc flag, the entry-point branch
+    hs.append([{"op": "env", "ep": "plugin"}, {"op": "getparser", "path": "q.c18x"}, {"op": "getparser", "path": "q.c18x"},
+               {"op": "getparser", "path": "a.ini"}, {"op": "getparser", "path": "values.xml"},
+               {"op": "parse", "fmt": "inc", "text": "#filter emptyLines\n\n\n#define a 1\n"}, {"op": "rewalk", "fmt": "inc"},
+               {"op": "parse", "fmt": "inc", "text": "#define a 1\n\n\n#define b 2\n#filter emptyLines\n"},
+               {"op": "rewalk", "fmt": "inc"}, {"op": "rewalk", "fmt": "inc"}, {"op": "rewalk", "fmt": "ini"}])
+    hs.append([{"op": "env", "ep": "nopkg"}, {"op": "getparser", "path": "q.c18x"}, {"op": "getparser", "path": "x"},
+               {"op": "rewalk", "fmt": "dtd"}, {"op": "rewalk", "fmt": "po"}])
+    cfg = {"op": "cnew", "id": 1, "locales": ["de", "fr"], "env": [["l10n_base", "/l"]], "root": None,
+           "paths": [["{l10n_base}/{locale}/**", None], ["/m/{locale}/*.ini", ["fr"]]],
+           "rules": [{"path": "/l/{locale}/a.ini", "key": "a", "action": "ignore"},
+                     {"path": ["/l/{locale}/**", "/m/{locale}/a.ini"], "key": ["b", "re:key_.*"], "action": "warning"},
+                     {"path": "/l/de/b/*", "key": None, "action": "ignore"}]}
+    qs = [{"op": "cfilter", "id": 1, "fullpath": p, "locale": l, "key": k}
+          for p, l, k in [("/l/de/a.ini", "de", "a"), ("/l/de/a.ini", "de", None), ("/l/fr/a.ini", "fr", "b"),
+                          ("/l/de/a.ini", "de", "key_d"), ("/m/fr/a.ini", "fr", "b"), ("/m/de/a.ini", "de", "b"),
+                          ("/l/de/b/z", "de", None), ("/l/de/a.ini", "xx", None), ("/l/de/a.ini", "de", "a")]]
+    hs.append([{"op": "env", "ep": "none"}, cfg] + qs + [{"op": "calllocales", "id": 1},
+              {"op": "csetloc", "id": 1, "locales": ["de"]}] + qs[:4] + [{"op": "calllocales", "id": 1}])
+    lines = [m_line(h) for h in hs]
+    pres = fresh_calls(base, hs, timeout=60.0)
+    mres = C.run_driver_parallel(lines) if ctx.model_ok else [None] * len(lines)
+    for h, r, mo in zip(hs, pres, mres):
+        if mo is None:
+            continue
+        if not isinstance(r, list):
+            out.disagreements.append({"op": "c18.mrun", "history": h, "impl": "failed: %r" % (r,), "model": mo[:200]})
+            continue
+        got = mo.split(" || ")
+        out.count("machine.histories")
+        for i, (o, e) in enumerate(zip(h[1:], r[1:])):
+            out.evaluations += 1
+            out.count("machine." + o["op"])
+            exp = "%s @@ %s" % (e.get("model"), e.get("state"))
+            g = got[i] if i < len(got) else "<missing>"
+            if exp != g:
+                out.disagreements.append({"op": "c18.mrun", "history": h[:i + 2], "index": i + 1, "impl": exp, "model": g})
+                break
+            res = exp.split(" @@ ")[0]
+            if i > 0 and res not in ("ok", "no-object", "done", "none", "None", "-"):
+                out.nontrivial.add("M" + hashlib.sha256(exp.encode()).hexdigest()[:16])
+
+
+def obs_line(blocks):
+    """`obs` line (C10 model of Observer / ObserverList) for the event blocks of a multi-file run, one unfiltered observer"""
+    files, idx = [], {}
+    for b in blocks:
+        for ev in b:
+            f = tuple(ev[2] if ev[0] == "n" else ev[1])
+            if f not in idx:
+                idx[f] = len(files)
+                files.append(f)
+    opt = lambda t: "-" if t is None else C.enc(t)
+    toks = ["obs", "0", "0", "F", str(len(files))]
+    for file, module, locale in files:
+        toks += [C.enc(file), opt(module), opt(locale)]
+    toks += ["O", "1", "N"]
+    evs = [ev for b in blocks for ev in b]
+    toks += ["E", str(len(evs))]
+    for ev in evs:
+        if ev[0] == "n":
+            d = ev[3]
+            data = ["-"] if d is None else (["T", str(len(d))] + [opt(x) for x in d]) if isinstance(d, list) else [C.enc(d)]
+            toks += ["n", ev[1], str(idx[tuple(ev[2])])] + data
+        else:
+            toks += ["s", str(idx[tuple(ev[1])]), str(len(ev[2]))] + [str(x) for kv in ev[2] for x in kv]
+    return " ".join(toks)
+
+
+def observer_union_stream(ctx, out, projects):
+    """multi_file_union on the Observer's aggregation: for every order of a small project the details tree and the
+    summaries the REAL Observer ends with (`show_obs`) against the C10 model (`obs`) fed with the event blocks the
+    single-file runs recorded, concatenated in that order"""
+    lines, expect = [], []
+    for files, perms, singles, permres in projects:
+        blocks = [s[0].get("events") for s in singles]
+        if any(b is None for b in blocks):
+            continue
+        for p, r in zip(perms, permres):
+            if "c10" not in r:
+                continue
+            lines.append(obs_line([blocks[i] for i in p]))
+            expect.append((files, list(p), r["c10"]))
+    mres = C.run_driver_parallel(lines) if (ctx.model_ok and lines) else [None] * len(lines)
+    for (files, order, real), mo in zip(expect, mres):
+        if mo is None:
+            continue
+        out.evaluations += 1
+        out.count("observer.orders")
+        seg = [x for x in mo.split(" |") if x.startswith("O ")]
+        got = seg[0][2:] if seg else mo
+        if got != real:
+            out.disagreements.append({"op": "obs", "files": files, "order": order, "impl": real[:600], "model": got[:600]})
+        else:
+            out.nontrivial.add("O" + hashlib.sha256(real.encode()).hexdigest()[:16])
+
+
+def plugin_stream(ctx, out, base, rng):
+    """the entry-point branch of getParser under the history oracle: in a process where a distribution registers a
+    parser plugin (files `c18*.c18x`), getParser / hasParser / compare / lint / add on plugin names, look-alikes and
+    built-in names; every result against the same operation as the first one of such a process"""
+    env = {"op": "env", "ep": "plugin"}
+
+    def mk():
+        name = rng.choice(PLUGIN_NAMES)
+        ref, l10n = gen_pair(rng, "properties")
+        k = rng.choice(["getparser", "hasparser", "compare", "lint", "add", "parse"])
+        if k == "getparser":
+            return {"op": "getparser", "path": name}
+        if k == "hasparser":
+            return {"op": "hasparser", "names": rng.sample(PLUGIN_NAMES, 3)}
+        if k == "compare":
+            return {"op": "compare", "fmt": "properties", "ref": ref, "l10n": l10n, "name": name}
+        if k == "lint":
+            return {"op": "lint", "fmt": "properties", "cur": l10n, "ref": ref, "name": name}
+        if k == "add":
+            return {"op": "add", "fmt": "properties", "ref": ref, "name": name}
+        return {"op": "parse", "fmt": "properties", "text": ref, "via": "file", "name": name}
+    hs = [[env] + [mk() for _ in range(rng.randrange(2, 6))] for _ in range(ctx.n(14, 120))]
+    hs.append([env, {"op": "getparser", "path": "c18a.c18x"}, {"op": "getparser", "path": "other.c18x"},
+               {"op": "hasparser", "names": ["other.c18x", "c18b.c18x"]}, {"op": "getparser", "path": "c18a.c18x"}])
+    ops = {}
+    for h in hs:
+        for o in h[1:]:
+            ops.setdefault(opkey(o), o)
+    keys = list(ops)
+    fr = dict(zip(keys, fresh_calls(base, [[env, ops[k]] for k in keys])))
+    for h, res in zip(hs, fresh_calls(base, hs)):
+        if not isinstance(res, list):
+            out.violations.append({"what": "plugin history failed: %r" % (res,), "input": {"history": h, "index": len(h) - 1}, "finding": None})
+            continue
+        for i, (o, r) in enumerate(zip(h, res)):
+            if i == 0:
+                continue
+            f = fr.get(opkey(o))
+            out.evaluations += 1
+            out.count("plugin." + o["op"])
+            if not isinstance(f, list):
+                out.violations.append({"what": "operation failed in a fresh interpreter: %r" % (f,), "input": {"history": [env, o], "index": 1}, "finding": None})
+            elif f[1]["canon"] != r["canon"]:
+                out.violations.append({"what": "result of %s depends on what was processed before (entry-point parsers)" % o["op"],
+                                       "input": {"history": h[:i + 1], "index": i}, "fresh": f[1]["canon"][:600],
+                                       "after_history": r["canon"][:600], "finding": None})
+            elif i > 1:
+                out.nontrivial.add("P" + hashlib.sha256(r["canon"].encode()).hexdigest()[:16])
+
+
+def junkkey_correspondence(ctx, out, base, rng):
+    """`Junk.key` of the real constructor vs. `Hist.junkKey` (`"%d"` of counter and span) through `c18.junkkey`"""
+    cases = [[1, 0, 0], [9, 9, 10], [10, 99, 100], [1, 16, 19], [12345678901, 0, 1]]
+    for _ in range(ctx.n(150, 1500)):
+        mag = rng.choice([10, 100, 10 ** 4, 10 ** 9, 10 ** 15])
+        a = rng.randrange(mag)
+        cases.append([rng.randrange(1, mag + 1), a, a + rng.randrange(1, mag)])
+    r = fresh_calls(base, [[{"op": "junkkey", "cases": cases}]])[0]
+    if not isinstance(r, list) or "keys" not in r[0]:
+        out.disagreements.append({"op": "c18.junkkey", "impl": "failed: %r" % (r,), "model": None})
+        return
+    mres = C.run_driver_parallel(["c18.junkkey %d %d %d" % tuple(c) for c in cases]) if ctx.model_ok else [None] * len(cases)
+    for c, k, mo in zip(cases, r[0]["keys"], mres):
+        if mo is None:
+            continue
+        out.evaluations += 1
+        out.count("junkkey")
+        if C.enc(k) != mo:
+            out.disagreements.append({"op": "c18.junkkey", "case": c, "impl": k, "model": mo})
 
 
 def near_and_empty_histories(ctx, rng):
@@ -497,8 +1126,14 @@ def _run(ctx, out, base):
                  "l10n": '<!ENTITY a "it\'s \\u00zz">\n<!ENTITY b "&bar; y">\n', "extra": ["android-dtd"]})
     core.append({"op": "lint", "fmt": "dtd", "ref": None, "cur": '<!ENTITY q "say \\u0022hi it\'s">\n<!ENTITY r "plain">\n',
                  "extra": ["android-dtd"]})
+    core.append({"op": "compare", "fmt": "dtd", "extra": ["android-dtd"],
+                 "ref": '<!ENTITY a "&foo; x">\n<!ENTITY b "&bar;">\n<!ENTITY c "10em">\n<!ENTITY d "12">\n<!ENTITY e "x">\n'
+                        '<!ENTITY f "width: 10em">\n<!ENTITY g "t">\n<!ENTITY h "t">\n<!ENTITY k "t">\n',
+                 "l10n": '<!ENTITY a "&baz; &bar; x">\n<!ENTITY b "&foo;">\n<!ENTITY c "big">\n<!ENTITY d "many">\n'
+                         '<!ENTITY e "<b>open\n">\n<!ENTITY f "width: 1ch">\n<!ENTITY g "100%">\n<!ENTITY h "\'say it\'s\'">\n'
+                         '<!ENTITY k "x <b> y">\n'})
     core.append({"op": "parse", "fmt": "inc", "text": "#filter emptyLines\n\n\n#define a 1\n"})
-    core.append({"op": "parse", "fmt": "inc", "text": "#define a 1\n\n\n#define b 2\n"})
+    core.append({"op": "parse", "fmt": "inc", "text": "# c\n#define a 1\n\n\n# d\n\n\n#define b 2\n#filter emptyLines\n# e\n\n\n#define c 3\n"})
     pool_ops = list(core)
     for _ in range(ctx.n(170, 1400)):
         pool_ops.append(gen_op(rng))
@@ -513,7 +1148,24 @@ def _run(ctx, out, base):
 
     # ---- histories
     histories = []                     # (tag, [ops])
-    pair_core = core if ctx.tier != "quick" else core[:14] + core[-6:]
+    base_spec = {"locales": ["de", "fr"], "env": [["l10n_base", "/l"]], "root": None, "paths": [["{l10n_base}/{locale}/**", None]],
+                 "rules": [{"path": "/l/{locale}/a.ini", "key": "a", "action": "ignore"},
+                           {"path": ["/l/{locale}/b/**", "/m/{locale}/a.ini"], "key": ["b", "re:key_.*"], "action": "warning"}]}
+    qsteps = [["filter", p_, l_, k_] for p_, l_ in M_QUERIES[:7] for k_ in (None, "a", "b")]
+    core.insert(len(core) - 2, {"op": "cfgq", "steps": [["all_locales"], ["add_paths", [["/l/{locale}/**", ["he"]]]], ["all_locales"], ["filter", "/l/he/a.ini", "he", None]]
+                                + qsteps[:9] + [["all_locales"], ["same"], ["set_locales", ["de"], True]] + qsteps[9:] + [["same"]],
+                                "spec": dict(base_spec, children=[{"locales": ["he"], "env": [], "root": "src", "paths": [["l/{locale}/**", ["de"]]],
+                                                                   "rules": [{"path": "l/{locale}/a.ini", "key": None, "action": "error"}]}],
+                                             excludes=[{"locales": ["de", "fr"], "env": [], "root": None, "paths": [["/l/{locale}/b/**", None]], "rules": []}])})
+    core.insert(len(core) - 2, {"op": "cfgq", "steps": qsteps[:6] + [["set_locales", ["fr"], False]] + qsteps[:6],
+                                "spec": dict(base_spec, rules=[], filter_py=rng.choice(["ignore-b", "raise", "report"]))})
+    core.insert(len(core) - 2, {"op": "lint", "fmt": "dtd", "ref": None, "extra": ["android-dtd"],
+                                "cur": '<!ENTITY i "say &quot;hi">\n<!ENTITY h "\'say it\'s\'">\n<!ENTITY j "">\n'})
+    pair_core = core if ctx.tier != "quick" else core[:14] + core[-8:]
+    for o_ in core:
+        if o_ not in pair_core:         # every core operation is in some history of the quick tier
+            histories.append(("pair", [rng.choice(pair_core), o_]))
+            histories.append(("pair", [o_, rng.choice(pair_core)]))
     for a, b in itertools.product(pair_core, repeat=2):
         histories.append(("pair", [a, b]))
     for _ in range(ctx.n(150, 1500)):
@@ -530,6 +1182,7 @@ def _run(ctx, out, base):
             histories.append(("mozpair", [{"op": "mozmatch", "pattern": a, "paths": mpaths},
                                           {"op": "mozmatch", "pattern": b, "paths": mpaths}]))
     histories += near_and_empty_histories(ctx, rng)
+    histories += repeat_histories(ctx, rng)
     for p in probes:
         pre = rng.choice(junky) if junky else {"op": "parse", "fmt": "ini", "text": "zzz"}
         histories.append(("probe", [pre, p]))
@@ -580,6 +1233,7 @@ def _run(ctx, out, base):
         out.violations.append(v)
 
     model_lines, model_expect = [], []
+    stale_seen = set()
     for (tag, h), res in zip(histories, hist_res):
         hs = [strip(o) for o in h]
         if not isinstance(res, list):
@@ -598,6 +1252,13 @@ def _run(ctx, out, base):
                 continue
             if r.get("jid", [0, 0])[0] > 0 and len(r["canon"]) > 20:
                 out.nontrivial.add(hashlib.sha256(r["canon"].encode()).hexdigest()[:16])
+            if o.get("nocmp"):
+                seen_junk += r.get("junk", [])
+                continue
+            if r.get("stale") and opkey(o) not in stale_seen:
+                stale_seen.add(opkey(o))
+                out.violations.append({"what": "%s: an object that was used before answers differently from a freshly built "
+                                       "one: %s" % (o["op"], r["stale"]), "input": {"history": [o], "index": 0}, "finding": None})
             if r["canon"] != fr["canon"]:
                 finding = FINDING if clash_rootcause(o, [fr["jid"], r["jid"]]) else None
                 if h[i].get("probe"):
@@ -649,7 +1310,14 @@ def _run(ctx, out, base):
         for i in range(4):
             jobs.append([{"op": "files", "files": files, "order": [i]}])
             meta.append(("single", files, i))
+        if pi == 0:
+            # directed: a legacy `module` entry on the first directory only, plain entries after it, findings everywhere
+            files = [["browser/f0.properties", "a=1\nb=2\n", "a=1\n"], ["toolkit/x/f1.ini", "a=1\n", "a=2\nzz"],
+                     ["f2.dtd", '<!ENTITY a "x">\n<!ENTITY c "z">\n', '<!ENTITY a "y">\n'], ["zother/f3.ftl", "a = 1\nb = 2\n", "a = 2\n"]]
         proj = gen_project(rng, files)
+        tops = sorted({rel.split("/")[0] for rel in proj["files"] if "/" in rel})
+        if tops and pi % 2 == 0:
+            proj["modules"] = tops[:1]          # the alphabetically first directory: every later file follows a module file
         jobs.append([proj])
         meta.append(("project", proj, None))
         for rel in proj["files"]:
@@ -658,6 +1326,7 @@ def _run(ctx, out, base):
                 jobs.append([one])
                 meta.append(("project1", one, (rel, loc)))
     res = fresh_calls(base, jobs, timeout=60.0)
+    obs_projects = []
     i = 0
     while i < len(jobs):
         kind, files, perms = meta[i]
@@ -684,6 +1353,7 @@ def _run(ctx, out, base):
                                            "expected": expected, "finding": None})
                     break
             out.count("files.permutations", len(perms))
+            obs_projects.append((files, perms, singles, permres))
         j = i + 5
         projres = res[j]
         proj = meta[j][1]
@@ -749,6 +1419,10 @@ def _run(ctx, out, base):
                 break
             if i > 0 and ("J " in g or "error" in g):
                 out.nontrivial.add("m" + hashlib.sha256(g.encode()).hexdigest()[:16])
+    observer_union_stream(ctx, out, obs_projects)
+    machine_correspondence(ctx, out, base, ctx.rng("c18.machine"))
+    junkkey_correspondence(ctx, out, base, ctx.rng("c18.junkkey"))
+    plugin_stream(ctx, out, base, ctx.rng("c18.plugin"))
     if not out.distribution.get("probe.dup.differs") and not out.distribution.get("probe.equal.differs"):
         out.notes.append("collision probes did not change any report")
     out.contracts["collision_probes"] = {k: v for k, v in out.distribution.items() if k.startswith("probe.")}
@@ -774,8 +1448,11 @@ def replay(payload):
                 res.append({"input": i, "violates": bool(bad)})
                 continue
             idx = i.get("index", len(h) - 1)
-            a, b = fresh_calls(base, [h, [h[idx]]])
-            bad = not (isinstance(a, list) and isinstance(b, list)) or a[idx]["canon"] != b[0]["canon"]
+            pre = [h[0]] if h and h[0].get("op") == "env" and idx > 0 else []
+            a, b = fresh_calls(base, [h, pre + [h[idx]]])
+            if isinstance(b, list):
+                b = b[len(pre):]
+            bad = not (isinstance(a, list) and isinstance(b, list)) or a[idx]["canon"] != b[0]["canon"] or bool(a[idx].get("stale"))
             res.append({"input": i, "violates": bool(bad),
                         "after_history": a[idx]["canon"] if isinstance(a, list) else a,
                         "fresh": b[0]["canon"] if isinstance(b, list) else b})
